@@ -62,20 +62,54 @@ func evmAlphabet(cfg evmCfg) []string {
 
 var acctCounter int64
 
+// acctRec is one key pair with the txs already signed for it.  After an
+// execution an account goes back to the worker's bucket for its current state
+// nonce and is handed to a later execution that needs an account with exactly
+// that state nonce (the pool is emptied in between, nothing else remembers it).
+type acctRec struct {
+	acc  *evmkit.Account
+	raws map[[2]uint64][]byte // (nonce, payload) → signed tx
+}
+
 type evmWorker struct {
-	cfg     evmCfg
-	dir     string
-	c       *evmkit.Chain
-	reopens int
-	// accounts whose state nonce is still 0 are handed to the next history
-	// together with the txs already signed for them (the pool is emptied
-	// between histories, so nothing else remembers them)
-	accts []*evmkit.Account
-	raws  []map[ethID][]byte
+	cfg       evmCfg
+	dir       string
+	c         *evmkit.Chain
+	reopens   int
+	buckets   map[uint64][]*acctRec
+	provision int // blocks executed only to bring an account to a wanted state nonce
+}
+
+// take returns an account whose state nonce is n.
+func (w *evmWorker) take(n uint64) *acctRec {
+	if b := w.buckets[n]; len(b) > 0 {
+		a := b[len(b)-1]
+		w.buckets[n] = b[:len(b)-1]
+		return a
+	}
+	if n == 0 {
+		return &acctRec{acc: evmkit.Key(1000 + int(atomic.AddInt64(&acctCounter, 1))), raws: map[[2]uint64][]byte{}}
+	}
+	a := w.take(n - 1)
+	// advance by one filler tx in a block of its own (not through the pool)
+	res, err := w.c.ExecBlock([][]byte{evmkit.Call(a.acc, n-1, payloadTo, []byte{0xff})})
+	if err != nil || len(res.Valid) != 1 {
+		core.Fatal("cannot provision an account at nonce %d: %v", n, err)
+	}
+	w.provision++
+	return a
+}
+
+func (w *evmWorker) giveBack(a *acctRec) {
+	n := uint64(99)
+	core.Try(func() { n = w.c.Nonce(a.acc.Addr) })
+	if n <= 8 && len(w.buckets[n]) < 64 {
+		w.buckets[n] = append(w.buckets[n], a)
+	}
 }
 
 func newEvmWorker(cfg evmCfg, dir string) *evmWorker {
-	w := &evmWorker{cfg: cfg, dir: dir}
+	w := &evmWorker{cfg: cfg, dir: dir, buckets: map[uint64][]*acctRec{}}
 	c, err := evmkit.Open(evmkit.Options{Dir: dir, BlockSize: cfg.BlockSize})
 	if err != nil {
 		core.Fatal("evmkit.Open(%s): %v", dir, err)
@@ -127,12 +161,15 @@ type execResult struct {
 	Classes  []string // outcome classes seen (for the histogram)
 	Reaps    int
 	Blocks   int
+	State    *evmState // recipe of the resulting pool state (nil: not reconstructible)
+	Snap     interface{}
+	Restored bool      // the run started from a reconstructed state instead of a literal replay
 }
 
 type evmExec struct {
 	w     *evmWorker
 	pool  gtypes.TxPool
-	accts []*evmkit.Account
+	accts []*acctRec
 	addrI map[common.Address]int
 	raw   map[txid][]byte
 	idOf  map[string]txid
@@ -150,10 +187,11 @@ func (x *evmExec) ethRaw(e ethID) []byte {
 	if r, ok := x.raw[id]; ok {
 		return r
 	}
-	r, ok := x.w.raws[e.Acct][e]
+	a := x.accts[e.Acct]
+	r, ok := a.raws[[2]uint64{e.Nonce, uint64(e.Payload)}]
 	if !ok {
-		r = evmkit.Call(x.accts[e.Acct], e.Nonce, payloadTo, []byte{byte(e.Payload)})
-		x.w.raws[e.Acct][e] = r
+		r = evmkit.Call(a.acc, e.Nonce, payloadTo, []byte{byte(e.Payload)})
+		a.raws[[2]uint64{e.Nonce, uint64(e.Payload)}] = r
 	}
 	x.raw[id] = r
 	x.idOf[string(r)] = id
@@ -271,7 +309,7 @@ func (x *evmExec) observe() string {
 	for a := range x.accts {
 		var pn uint64
 		var err error
-		if !x.guard("GetPendingMaxNonce", func() { pn, err = x.pool.GetPendingMaxNonce(x.accts[a].Addr.Bytes()) }) {
+		if !x.guard("GetPendingMaxNonce", func() { pn, err = x.pool.GetPendingMaxNonce(x.accts[a].acc.Addr.Bytes()) }) {
 			return "dead"
 		}
 		if err == nil {
@@ -293,7 +331,7 @@ func (x *evmExec) observe() string {
 func (x *evmExec) appNonces() []uint64 {
 	out := make([]uint64, len(x.accts))
 	for i, a := range x.accts {
-		out[i] = x.w.c.Nonce(a.Addr)
+		out[i] = x.w.c.Nonce(a.acc.Addr)
 	}
 	return out
 }
@@ -486,7 +524,7 @@ func (x *evmExec) apply(letter string) string {
 // the merge oracle compares their next-letter observations, so a stale cache
 // shows up as a failed merge), everything else in the application state (the
 // txs call a code-less address: only the sender nonce changes), chain height.
-func (x *evmExec) canon() string {
+func (x *evmExec) canon() (string, *evmState) {
 	var s struct {
 		P, W []string
 		PI   []string
@@ -495,45 +533,50 @@ func (x *evmExec) canon() string {
 		N    []uint64
 	}
 	snap := x.w.c.App.VerifPoolSnapshot()
-	name := func(h [32]byte, raw []byte) string {
-		if id, ok := x.idOf[string(raw)]; ok {
-			return string(id)
-		}
-		return "?" + fmt.Sprintf("%x", h[:4])
-	}
-	hashName := map[[32]byte]string{}
+	n := len(x.accts)
+	rec := &evmState{Nonces: append([]uint64(nil), x.m.nonce...), P: make([][]ethID, n), W: make([][]ethID, n), L: make([][]ethID, n)}
+	ok := true
+	hashName := map[[32]byte]txid{}
 	for id, raw := range x.raw {
 		if _, isEth := x.m.ethOf[id]; isEth {
 			var h [32]byte
 			copy(h[:], gtypes.Tx(raw).Hash()) // keccak of the rlp bytes = etypes tx hash
-			hashName[h] = string(id)
+			hashName[h] = id
 		}
 	}
-	entry := func(addr [20]byte, nonce uint64, h [32]byte) string {
-		a, ok := x.addrI[common.Address(addr)]
+	queued := map[txid]bool{}
+	entry := func(addr [20]byte, nonce uint64, h [32]byte, dst [][]ethID) string {
+		a, okA := x.addrI[common.Address(addr)]
 		an := "?"
-		if ok {
+		if okA {
 			an = string(acctLetter(a))
 		}
-		hn, ok := hashName[h]
-		if !ok {
+		id, okH := hashName[h]
+		hn := string(id)
+		if !okH {
 			hn = fmt.Sprintf("?%x", h[:4])
+		}
+		if okA && okH && x.m.ethOf[id].Acct == a && x.m.ethOf[id].Nonce == nonce {
+			dst[a] = append(dst[a], x.m.ethOf[id])
+			queued[id] = true
+		} else {
+			ok = false
 		}
 		return fmt.Sprintf("%s/%d=%s", an, nonce, hn)
 	}
 	for _, e := range snap.Pending {
-		s.P = append(s.P, entry(e.Addr, e.Nonce, e.Hash))
+		s.P = append(s.P, entry(e.Addr, e.Nonce, e.Hash, rec.P))
 	}
 	for _, e := range snap.Waiting {
-		s.W = append(s.W, entry(e.Addr, e.Nonce, e.Hash))
+		s.W = append(s.W, entry(e.Addr, e.Nonce, e.Hash, rec.W))
 	}
 	idx := func(tag string, m map[[20]byte][]uint64) {
 		for addr, ns := range m {
 			c := append([]uint64(nil), ns...)
 			sort.Slice(c, func(i, j int) bool { return c[i] < c[j] })
-			a, ok := x.addrI[common.Address(addr)]
+			a, okA := x.addrI[common.Address(addr)]
 			an := "?"
-			if ok {
+			if okA {
 				an = string(acctLetter(a))
 			}
 			s.PI = append(s.PI, fmt.Sprintf("%s%s%v", tag, an, c))
@@ -542,79 +585,199 @@ func (x *evmExec) canon() string {
 	idx("p", snap.PendingIndex)
 	idx("w", snap.WaitingIndex)
 	for h, raw := range snap.All {
-		s.All = append(s.All, name(h, raw))
+		id, known := x.idOf[string(raw)]
+		if !known {
+			ok = false
+			s.All = append(s.All, fmt.Sprintf("?%x", h[:4]))
+			continue
+		}
+		s.All = append(s.All, string(id))
+		if !queued[id] {
+			if e, isEth := x.m.ethOf[id]; isEth {
+				rec.L[e.Acct] = append(rec.L[e.Acct], e)
+			} else {
+				ok = false
+			}
+		}
+	}
+	for id := range queued {
+		if _, in := snap.All[hashOf(x.raw[id])]; !in {
+			ok = false // queued but missing from the lookup map: no recipe for that
+		}
 	}
 	for _, raw := range snap.Ext {
-		s.Ext = append(s.Ext, name([32]byte{}, raw))
+		id, known := x.idOf[string(raw)]
+		if !known {
+			ok = false
+			id = txid(fmt.Sprintf("?%x", gtypes.Tx(raw).Hash()[:4]))
+		}
+		s.Ext = append(s.Ext, string(id))
+		rec.Ext = append(rec.Ext, id)
 	}
 	sort.Strings(s.P)
 	sort.Strings(s.W)
 	sort.Strings(s.PI)
 	sort.Strings(s.All)
 	s.N = x.m.nonce
-	return fmt.Sprintf("P%v W%v I%v all%v ext%v n%v | model %s", s.P, s.W, s.PI, s.All, s.Ext, s.N, x.m.key())
+	key := fmt.Sprintf("P%v W%v I%v all%v ext%v n%v | model %s", s.P, s.W, s.PI, s.All, s.Ext, s.N, x.m.key())
+	if !ok {
+		return key, nil
+	}
+	for a := 0; a < n; a++ {
+		for _, l := range [][]ethID{rec.P[a], rec.W[a], rec.L[a]} {
+			sort.Slice(l, func(i, j int) bool {
+				if l[i].Nonce != l[j].Nonce {
+					return l[i].Nonce < l[j].Nonce
+				}
+				return l[i].Payload < l[j].Payload
+			})
+		}
+	}
+	rec.Model = x.m.clone()
+	rec.Key = key
+	return key, rec
 }
 
-// runEvm executes prefill+history on the worker's real application and pool.
-// mode: "step" (key + observers after the last letter), "drain" (then drain).
-func runEvm(w *evmWorker, hist []string, mode string) *execResult {
-	res := &execResult{}
-	w.fresh(false)
-	nAcct := w.cfg.NAcct
-	x := &evmExec{w: w, pool: w.c.App.GetTxPool(), addrI: map[common.Address]int{}, raw: map[txid][]byte{}, idOf: map[string]txid{}, res: res}
-	for i := 0; i < nAcct; i++ {
-		if i >= len(w.accts) {
-			w.accts = append(w.accts, nil)
-			w.raws = append(w.raws, nil)
-		}
-		if w.accts[i] == nil {
-			w.accts[i] = evmkit.Key(1000 + int(atomic.AddInt64(&acctCounter, 1)))
-			w.raws[i] = map[ethID][]byte{}
-		}
-		a := w.accts[i]
-		x.accts = append(x.accts, a)
-		x.addrI[a.Addr] = i
+func hashOf(raw []byte) [32]byte {
+	var h [32]byte
+	copy(h[:], gtypes.Tx(raw).Hash())
+	return h
+}
+
+// evmState is a recipe for rebuilding a pool state on another instance
+// without replaying the history that produced it (in particular without
+// re-executing its blocks): accounts whose state nonce already has the wanted
+// value are taken from the worker's stock, and the pool content is re-submitted
+// through ReceiveTx in an order that yields the same pending / waiting / lookup
+// sets.  The rebuilt instance is accepted only if its canonical key EQUALS the
+// recorded one (pool part through the read-only snapshot, model part copied);
+// otherwise the caller falls back to the literal replay.  By the argument at
+// canon, equal keys have equal futures; on top of that every finding of a
+// rebuilt run is confirmed by a literal replay before it is reported, every
+// unique state is reached once more literally by its drain probe (keys are
+// compared), and the merge oracle executes literally.
+type evmState struct {
+	Nonces  []uint64
+	P, W, L [][]ethID // per account: pending, waiting, in the lookup map only
+	Ext     []txid
+	Model   *poolModel
+	Key     string
+}
+
+func (x *evmExec) submit(raw []byte) {
+	core.Try(func() { x.pool.ReceiveTx(gtypes.Tx(raw)) })
+}
+
+// rebuild re-creates st on the (emptied) pool; reports whether the key matches.
+func (x *evmExec) rebuild(st *evmState) bool {
+	x.m = st.Model.clone()
+	for _, id := range st.Ext {
+		k, _ := strconv.Atoi(string(id[1:]))
+		_, raw := x.extRaw(k)
+		x.submit(raw)
 	}
-	defer func() {
-		// retire every account the application has seen a tx of
-		for i, a := range x.accts {
-			used := true
-			core.Try(func() { used = w.c.Nonce(a.Addr) != 0 })
-			if used {
-				w.accts[i] = nil
-			}
+	for a := range x.accts {
+		p := st.P[a]
+		for i := len(p) - 1; i >= 1; i-- { // everything but the head goes to waiting first
+			x.submit(x.ethRaw(p[i]))
 		}
-	}()
+		if len(p) > 0 {
+			x.submit(x.ethRaw(p[0])) // the head promotes the whole run
+		}
+		// lookup-only entries: a tx that lost a same-nonce race leaves such an
+		// entry; larger nonces first (they wait), the one at the state nonce last
+		// (its arrival promotes — and drops — the consecutive run)
+		l := st.L[a]
+		for i := len(l) - 1; i >= 0; i-- {
+			x.submit(x.ethRaw(l[i]))
+		}
+		for _, e := range st.W[a] {
+			x.submit(x.ethRaw(e))
+		}
+	}
+	var key string
+	if p, _, _ := core.Try(func() { key, _ = x.canon() }); p {
+		return false
+	}
+	return key == st.Key
+}
+
+func (x *evmExec) begin(nonces []uint64) {
+	w := x.w
+	w.fresh(false)
+	for i := 0; i < w.cfg.NAcct; i++ {
+		var n uint64
+		if nonces != nil {
+			n = nonces[i]
+		}
+		a := w.take(n)
+		x.accts = append(x.accts, a)
+		x.addrI[a.acc.Addr] = i
+	}
+	w.fresh(false) // provisioning blocks call updateToState; empty the pool afterwards
+	x.pool = w.c.App.GetTxPool()
 	snap := w.c.App.VerifPoolSnapshot()
-	x.m = newPoolModel(nAcct, snap.PendingLimit, snap.WaitingLimit)
+	x.m = newPoolModel(w.cfg.NAcct, snap.PendingLimit, snap.WaitingLimit)
 	if snap.PendingLimit != 10*w.cfg.BlockSize || snap.WaitingLimit != 10*w.cfg.BlockSize {
 		// "configured bounds" = 10 × block_size for each queue (tx_pool.go NewEthTxPool)
 		x.find("NewEthTxPool", "limits-not-from-config", "", fmt.Sprintf("block_size=%d gives limits %d/%d", w.cfg.BlockSize, snap.PendingLimit, snap.WaitingLimit))
 	}
-	x.bound = 10*w.cfg.BlockSize*3
+	x.bound = 10 * w.cfg.BlockSize * 3
 	copy(x.m.nonce, x.appNonces())
-	all := append(append([]string{}, w.cfg.Prefill...), hist...)
+}
+
+// runEvm executes letters on the worker's real application and pool.
+//   from == nil: literal run of prefill + hist (fresh accounts at nonce 0);
+//   from != nil: rebuild that state, then run hist[len(hist)-suffix:]; returns
+//   nil when the state cannot be rebuilt (caller falls back to the literal run).
+// mode: "step" (key + observers after the last letter), "drain" (then drain).
+func runEvm(w *evmWorker, from *evmState, hist []string, suffix int, mode string) *execResult {
+	res := &execResult{Restored: from != nil}
+	x := &evmExec{w: w, addrI: map[common.Address]int{}, raw: map[txid][]byte{}, idOf: map[string]txid{}, res: res}
+	defer func() {
+		if x.dead {
+			w.fresh(true)
+		}
+		for _, a := range x.accts {
+			w.giveBack(a)
+		}
+	}()
+	letters := append(append([]string{}, w.cfg.Prefill...), hist...)
+	first := -len(w.cfg.Prefill)
+	if from != nil {
+		x.begin(from.Nonces)
+		if len(res.Findings) > 0 || !x.rebuild(from) {
+			return nil
+		}
+		letters = hist[len(hist)-suffix:]
+		first = len(hist) - suffix
+	} else {
+		x.begin(nil)
+	}
 	last := ""
-	for i, l := range all {
-		x.step = i - len(w.cfg.Prefill)
+	for i, l := range letters {
+		x.step = first + i
 		last = x.apply(l)
 		if !x.dead {
 			x.sizeCheck()
 		}
 		if x.dead || len(res.Findings) > 0 {
-			w.fresh(x.dead)
 			return res
 		}
 		if l == "O" {
 			last = "obs:" + x.observe()
 			if x.dead || len(res.Findings) > 0 {
-				w.fresh(x.dead)
 				return res
 			}
 		}
 	}
 	x.step = len(hist)
-	x.guard("snapshot", func() { res.Key = x.canon() })
+	x.guard("snapshot", func() {
+		res.Key, res.State = x.canon()
+		if res.State != nil {
+			res.Snap = res.State
+		}
+	})
 	if mode == "drain" {
 		x.drain()
 		res.Obs = last
@@ -622,8 +785,7 @@ func runEvm(w *evmWorker, hist []string, mode string) *execResult {
 		res.Obs = last + " | " + x.observe()
 	}
 	if x.dead || len(res.Findings) > 0 {
-		res.Key = ""
-		w.fresh(x.dead)
+		res.Key, res.State, res.Snap = "", nil, nil
 	}
 	return res
 }
